@@ -527,6 +527,15 @@ func genTape(t *rapid.T, maxLen int) []uint16 {
 	return tape
 }
 
+// genTail draws, for three runs in four, the pseudo-random continuation of
+// the tape (stickiness 50/80/95/99 %).
+func genTail(t *rapid.T) *sim.Tail {
+	if rapid.IntRange(0, 3).Draw(t, "tail") == 0 {
+		return nil
+	}
+	return &sim.Tail{Seed: uint32(rapid.IntRange(0, 1<<20).Draw(t, "tailSeed")), Sticky: []int{50, 80, 95, 99}[rapid.IntRange(0, 3).Draw(t, "tailSticky")]}
+}
+
 // genPCT draws, for one run in four, a priority schedule with 1-3 priority
 // change points instead of a tape-driven one.
 func genPCT(t *rapid.T, horizon int) *sim.PCT {
